@@ -68,6 +68,7 @@ PLAN = {
     },
     "C05": {
         "mc": [MC_INST], "gen": [GI("evaluate", "Evaluate")], "drive": [D("evaluate", 2000, 100000), D("mixed", 300, 15000)],
+        "lift_inst_every": 5,
         "exhaustive_note": "tolerance grid (67u/68u around 1e-6, 6u/7u around 1e-7, u = 2^-26) and the exact floats +-1e-6/+-1e-7; every kind x bound shape of an irrelevant variable; explicit binary bounds; chained dependents in both map orders",
     },
     "C06": {
